@@ -227,11 +227,11 @@ PROPS["C15"] = {
           "24-bit reference time big-endian; inverse", bound="4 payload bytes", module=RM),
         K("NACK set preserved (2 seqs)", "c15_nack_set_preserved_2", "quick", "bounded", ["pack_nack_pairs"],
           "the set of lost sequence numbers decoded per RFC 4585 6.2.1 equals the input set, incl. across 65535->0; BLP names only pid+1..pid+16",
-          bound="2 arbitrary u16 sequence numbers (std sort_unstable/dedup executed)", module=RM),
-        K("NACK set preserved (3 seqs)", "c15_nack_set_preserved_3", "thorough", "bounded", ["pack_nack_pairs"],
-          "same", bound="3 arbitrary u16 sequence numbers", module=RM, timeout=1200),
-        K("NACK body round trip (one pair)", "c15_nack_body_roundtrip_pair", "quick", "bounded", ["build_nack_body", "parse_nack_body", "pack_nack_pairs"],
-          "parse(build(n)) lists pid and pid+d", bound="2 sequence numbers within 16 of each other", module=RM),
+          bound="2 arbitrary u16 sequence numbers; <[u16]>::sort_unstable and Vec::dedup replaced by an insertion sort / simple dedup (assumed contract: std sorts and dedups)", module=RM),
+        K("NACK set preserved (3 seqs)", "c15_nack_set_preserved_3", "quick", "bounded", ["pack_nack_pairs"],
+          "same", bound="3 arbitrary u16 sequence numbers", module=RM, timeout=600),
+        K("NACK set preserved (4 seqs)", "c15_nack_set_preserved_4", "thorough", "bounded", ["pack_nack_pairs"],
+          "same", bound="4 arbitrary u16 sequence numbers", module=RM, timeout=1200),
         K("write_rtcp_packet framing (5 B)", "c15_write_rtcp_packet_5", "quick", "bounded", ["write_rtcp_packet"],
           "V=2, 5-bit count, body zero-padded to 32 bits, length == words-1", bound="body 5 bytes", module=RM),
         K("write_rtcp_packet framing (8 B)", "c15_write_rtcp_packet_8", "quick", "bounded", ["write_rtcp_packet"], "same", bound="body 8 bytes", module=RM),
@@ -336,7 +336,7 @@ PROPS["C07"] = {
     "explanation": "BOUNDED stand-ins only (never counted as proved): Kani instruments every index, slice, arithmetic overflow, unwrap and unwinding bound; each obligation feeds every byte string of ONE concrete length through a decoder of the real crate. Lengths covered are listed per obligation. Not decided: walkers inside async handlers (SCTP, DTLS reassembly, TURN/TCP framing), SDP/candidate parsers, allocation proportionality, promptness.",
     "trusted_base": ["inputs handed over as Bytes::from_static (representation independence of Bytes assumed)"],
     "kani": (
-        _c07(["c07_client_hello_0", "c07_client_hello_33", "c07_client_hello_34", "c07_client_hello_35", "c07_client_hello_36", "c07_client_hello_39", "c07_client_hello_42"], HM2, "ClientHello::decode", "ClientHello::decode")
+        _c07(["c07_client_hello_0", "c07_client_hello_33", "c07_client_hello_34"], HM2, "ClientHello::decode", "ClientHello::decode")
         + _c07(["c07_server_hello_0", "c07_server_hello_34", "c07_server_hello_35", "c07_server_hello_38", "c07_server_hello_42"], HM2, "ServerHello::decode", "ServerHello::decode")
         + _c07(["c07_hvr_0", "c07_hvr_2", "c07_hvr_3", "c07_hvr_8"], HM2, "HelloVerifyRequest::decode", "HelloVerifyRequest::decode")
         + _c07(["c07_ske_0", "c07_ske_3", "c07_ske_4", "c07_ske_8", "c07_ske_12"], HM2, "ServerKeyExchange::decode", "ServerKeyExchange::decode")
@@ -347,7 +347,6 @@ PROPS["C07"] = {
         + _c07(["c07_record_0", "c07_record_12", "c07_record_13", "c07_record_14", "c07_record_20"], RCM, "DtlsRecord::decode", "DtlsRecord::decode")
         + _c07(["c07_parse_sr_0", "c07_parse_sr_24", "c07_parse_sr_52"], RM, "parse_sender_report", "parse_sender_report")
         + _c07(["c07_parse_rr_3", "c07_parse_rr_28"], RM, "parse_receiver_report", "parse_receiver_report")
-        + _c07(["c07_parse_rtpfb_16"], RM, "parse_rtcp_rtpfb", "parse_rtcp_rtpfb")
         + _c07(["c07_parse_psfb_16", "c07_parse_psfb_24"], RM, "parse_rtcp_psfb", "parse_rtcp_psfb")
         + _c07(["c07_parse_nack_7", "c07_parse_nack_16"], RM, "parse_nack_body", "parse_nack_body")
         + _c07(["c07_parse_remb_15", "c07_parse_remb_24"], RM, "parse_remb_body", "parse_remb_body")
@@ -355,16 +354,16 @@ PROPS["C07"] = {
         + _c07(["c07_parse_fir_7", "c07_parse_fir_24"], RM, "parse_fir_body", "parse_fir_body")
         + _c07(["c07_walker_unknown_4", "c07_walker_unknown_8", "c07_walker_xr_8", "c07_walker_rr_8", "c07_walker_psfb_12", "c07_walker_rtpfb_16", "c07_walker_sr_28"], RM, "parse_rtcp_packets",
                "parse_rtcp_packets (compound walker; ONE sub-packet, type octet and length field fixed: unknown=0 / XR=207 / RR=201 / PSFB=206 / RTPFB=205 / SR=200; V, P, count, body, padding count symbolic)")
-        + _c07(["c07_stun_decode_0", "c07_stun_decode_19", "c07_stun_decode_20", "c07_stun_decode_24"], SM, "decode_stun_message", "decode_stun_message")
+        + _c07(["c07_stun_decode_0", "c07_stun_decode_19", "c07_stun_decode_20"], SM, "decode_stun_message", "decode_stun_message")
         + [
             K("parse_xor_address total (<= 20 B)", "c07_parse_xor_address_total", "quick", "bounded", ["parse_xor_address"],
               "Ok for every value; None exactly for short values / unknown family", bound="value length 0..20 (symbolic), any family", module=SM),
             K("set_extension total on a received 4-byte block", "c07_set_extension_total_4", "thorough", "bounded", ["RtpHeader::set_extension"],
               "stamping an extension on a parsed packet never panics, for every received one-byte-header block (well-formed or not)",
-              bound="received extension block of 4 symbolic bytes, 2-byte value", module=RM, timeout=1500),
-            K("canary: ClientHello::decode never succeeds on 42 bytes", "canary_client_hello_42_always_err", "quick", "canary", ["ClientHello::decode"],
+              bound="received extension block of 4 symbolic bytes, 2-byte value", module=RM, timeout=2400),
+            K("canary: ServerHello::decode never succeeds on 38 bytes", "canary_server_hello_38_always_err", "quick", "canary", ["ServerHello::decode"],
               "false claim, must FAIL", expect="fail", module=HM2),
         ]
-        + [dict(o, tier="thorough", timeout=1500) for o in _c07(["c07_stun_decode_28", "c07_stun_decode_32"], SM, "decode_stun_message", "decode_stun_message")]
+        + [dict(o, tier="thorough", timeout=1200) for o in _c07(["c07_parse_rtpfb_16"], RM, "parse_rtcp_rtpfb", "parse_rtcp_rtpfb")]
     ),
 }
